@@ -920,7 +920,7 @@ class GaussianConstr(object):
 
     def update(self, constraint={}):
         for i in constraint:
-            if not i in self.vm.trainable_vars:
+            if not self.vm.bound_name(i) in self.vm.trainable_vars:
                 warnings.warn(
                     "Constraint {} is useless to fitting because it's not trainable".format(
                         i
@@ -950,14 +950,19 @@ class GaussianConstr(object):
         """
         g_dict = {}
         for i in self.constraint:
-            if not i in self.vm.trainable_vars:
+            # a tied follower shares the variable of its group's free name:
+            # its term (see get_constrain_term) is differentiated there
+            k = self.vm.bound_name(i)
+            if not k in self.vm.trainable_vars:
                 continue
             pi = self.constraint[i]
             assert isinstance(pi, tuple) or isinstance(pi, list)
             assert len(pi) == 2
             mean, sigma = pi
             var = self.vm.variables[i]
-            g_dict[i] = (var - mean) / (sigma**2)  # 1st differentiation
+            g_dict[k] = g_dict.get(k, 0.0) + (var - mean) / (
+                sigma**2
+            )  # 1st differentiation
         grad = []
         for i in self.vm.trainable_vars:
             if i in g_dict:
@@ -970,14 +975,17 @@ class GaussianConstr(object):
         """the constrained parameter's 2nd differentiation"""
         h_dict = {}
         for i in self.constraint:
-            if not i in self.vm.trainable_vars:
+            k = self.vm.bound_name(i)
+            if not k in self.vm.trainable_vars:
                 continue
             pi = self.constraint[i]
             assert isinstance(pi, tuple) or isinstance(pi, list)
             assert len(pi) == 2
             mean, sigma = pi
             var = self.vm.variables[i]
-            h_dict[i] = 1 / (sigma**2)  # 2nd differentiation
+            h_dict[k] = h_dict.get(k, 0.0) + 1 / (
+                sigma**2
+            )  # 2nd differentiation
         nv = len(self.vm.trainable_vars)
         hessian = np.zeros([nv, nv])
         for v, i in zip(self.vm.trainable_vars, range(nv)):
